@@ -299,6 +299,7 @@ class Stamps:
         self.alias = {}
         self.run_t = dump(ast.parse(IDIOM_RUN).body)
         self.scan_t = dump(ast.parse(IDIOM_SCAN).body)
+        self.scan_t2 = dump(ast.parse(IDIOM_SCAN.replace("datetime.fromtimestamp(timestamp).astimezone(timezone.utc)", "datetime.fromtimestamp(timestamp, timezone.utc)")).body)
 
     def is_alias(self, e, attr):
         return (isinstance(e, ast.Name) and self.alias.get(e.id) == attr) or \
@@ -337,8 +338,8 @@ class Stamps:
         s, more = stmts[0], stmts[1:]
         if isinstance(s, ast.Expr) and isinstance(s.value, ast.Constant) and isinstance(s.value.value, str):
             return self.seq(more, env)
-        # idiom 2: the generic scan (4 statements ending in return)
-        if len(stmts) == 3 and self.normal(stmts) == self.scan_t:
+        # idiom 2: the generic scan (4 statements ending in return); the stamp is turned into a UTC datetime directly or through local time
+        if len(stmts) == 3 and self.normal(stmts) in (self.scan_t, self.scan_t2):
             return "(time_scan E i query)"
         # idiom 1: the run of equal stamps (3 statements), needs `match` bound to a position and the probe bound
         if len(stmts) >= 3 and self.normal(stmts[:3]) == self.run_t:
